@@ -91,7 +91,7 @@ def correspondence(ctx):
     # sessions on the real coordinator with the global defender on, several episodes per session: the history handed to the
     # defender must be exactly the actions answered in the current episode (monitor tagged C17 in coordcommon)
     from props import coordcommon as CC
-    CC.run_sessions(ctx, "C17", 78 if ctx.tier == "thorough" else 46,
+    CC.run_sessions(ctx, "C17", 84 if ctx.tier == "thorough" else 52,
                     lambda r: dict(n_events=r.choice([50, 80]), burst=0.1, fault=0.02, bad=0.02, resets=0.3),
                     lambda r: dict(defender=True, required=r.choice([1, 1, 2]), max_steps=r.choice([3, 6, None])))
     sess_cov = {k: ctx.coverage.get(k) for k in ("sessions", "labels_followed", "response_and_barrier_statistics")}
